@@ -609,6 +609,11 @@ func (prop) Run(line string) core.Outcome {
 	case len(f) == 3 && f[0] == "cas":
 		return runCAS(f[1], f[2])
 	}
+	if len(f) >= 2 {
+		if o, ok := runStrOp(f); ok {
+			return o
+		}
+	}
 	return core.Outcome{Impl: "bad-op"}
 }
 
